@@ -30,19 +30,21 @@ Proof. exact int_read_back. Qed.
 Print Assumptions C14_int.
 
 (* Float branch, every digit string / exponent / significant-digit setting (the
-   limit is clamp(sig,1,255)): formatting does not fail; the text is a literal of
-   numbat's number syntax (the reader returns its mantissa and exponent); its
-   rational value is the shortest decimal rounded half-up to min(limit, #digits)
+   limit is clamp(sig,1,255)): formatting does not fail; removing a separator whose
+   first character is not one of 0-9 . e + - leaves the text unchanged; the text is a
+   literal of numbat's number syntax (the reader returns its mantissa and exponent);
+   its rational value is the shortest decimal rounded half-up to min(limit, #digits)
    significant digits. *)
 Theorem C14_float : forall o neg ds e, wfd ds -> ds <> [] ->
   let limit := sig_limit (o_sig o) in
   exists l,
     display o (CFloat neg ds e) = Out (show_lit true l) /\
+    (sep_lit_ok (o_sep o) -> remove_sep (o_sep o) (show_lit true l) = show_lit true l) /\
     read_number (show_lit true l) = Some (lit_dec l) /\
     dQ (lit_dec l)
     == dQ (signed neg (rounded ds limit),
            (e - Z.of_nat (Nat.min (List.length ds) limit))%Z).
-Proof. exact float_correct. Qed.
+Proof. exact float_correct_sep. Qed.
 Print Assumptions C14_float.
 
 (* `rounded` is a correct rounding: W * 10^m is the multiple of 10^m nearest to the
